@@ -492,10 +492,11 @@ async def _cancel_run(cfg, cancel_at, rec):
         await asyncio.wait_for(asyncio.gather(a0, return_exceptions=True), 5)
     except asyncio.TimeoutError:
         pass
+    # callbacks of A0 that were parked at the gate: the cancellation of A0 must have reached them (their
+    # futures are done); whatever is still alive stays in play and is scheduled together with A1
     for name in list(gate.parked):
-        fut = gate.parked.pop(name)
-        if not fut.done():
-            fut.cancel()
+        if gate.parked[name].done():
+            gate.parked.pop(name)
     await asyncio.sleep(0)
     # second sender, after the cancellation: plain default schedule
     a1 = asyncio.create_task(sender("A1", cfg["sends"]), name="A1")
@@ -524,6 +525,10 @@ def explore_cancel(cfg, counters, violations, sigs, samples):
         after = {"A1": sent.get("A1", [])}
         log = [e for e in rec.log if e.get("tok", "").startswith("A1") or e["k"] in ("cb_begin", "cb_end") and str(e.get("tok")).startswith("A1")]
         problems = check_history(log, after, stuck is None, {})
+        a1_first = min((e["n"] for e in rec.log if e["k"] in ("cb_begin", "send_call") and str(e.get("tok")).startswith("A1")), default=None)
+        zombies = [e for e in rec.log if e["k"] in ("cb_begin", "cb_end") and str(e.get("tok")).startswith("A0") and a1_first is not None and e["n"] > a1_first]
+        if zombies:
+            problems.append(("overlap", f"callback {zombies[0]['cb']} of the cancelled sender's event went on after the next sender's event had begun"))
         if stuck:
             problems.append(("stuck", f"sender A1 did not finish after A0 was cancelled ({stuck})"))
         for mech, detail in problems:
